@@ -1125,11 +1125,14 @@ func runSweep(c SweepCase, o *vh.Obs) *vh.Failure {
 type FileCase struct {
 	Sweep SweepCase
 	Name  string
+	// Existing > 0: the path already holds a file of that many bytes when Save is called
+	Existing int `json:",omitempty"`
 }
 
 func genFile(t *rapid.T) FileCase {
 	return FileCase{Sweep: SweepCase{N: rapid.SampledFrom([]int{1, 2, 7, 100, 341, 342, 1000, 6000}).Draw(t, "n"), Format: rapid.IntRange(0, 2).Draw(t, "format"), Tri: rapid.Bool().Draw(t, "tri")},
-		Name: rapid.SampledFrom([]string{"a.ply", "B.PLY", "noext", "dots.in.name.ply", "sub/dir/a.ply"}).Draw(t, "name")}
+		Name:     rapid.SampledFrom([]string{"a.ply", "B.PLY", "noext", "dots.in.name.ply", "sub/dir/a.ply"}).Draw(t, "name"),
+		Existing: rapid.SampledFrom([]int{0, 0, 1, 200, 5000, 70000, 1000000}).Draw(t, "existing")}
 }
 
 func sweepMesh(c SweepCase) modeling.Mesh {
@@ -1176,6 +1179,12 @@ func runFile(c FileCase, o *vh.Obs) *vh.Failure {
 	defer cleanup()
 	path := filepath.Join(dir, c.Name)
 	os.MkdirAll(filepath.Dir(path), 0o755) // the library creates missing directories without permission bits (os.ModeDir): only root could write into them
+	if c.Existing > 0 && c.Existing <= 1<<21 {
+		if err := os.WriteFile(path, bytes.Repeat([]byte{'#'}, c.Existing), 0o644); err != nil {
+			return vh.Failf("harness/existing-file", "%v", err)
+		}
+		o.Class("files/over-an-existing-file")
+	}
 	if err := ply.Save(path, m, formats[f]); err != nil {
 		return vh.Failf("files/save-error", "Save(%q): %v", c.Name, err)
 	}
